@@ -307,25 +307,28 @@ func (fr *frame) doAppend(cc *ssa.CallCommon, args []T, st *State) T {
 	es := c.R.SortOf(et)
 	hn := c.R.CellHeap(es)
 	h := c.getHeap(st, hn)
-	// prefix copy when a new array is allocated
-	h1 := c.fresh(hn, h.Sort)
-	c.emit("(assert (forall ((a Ref)) (! (= (select %s a) (ite (and (not %s) ((_ is ridx) a) (= (rarr a) %s) (<= 0 (riidx a)) (< (riidx a) %s)) (select %s (ridx %s (+ %s (riidx a)))) (select %s a))) :pattern ((select %s a)))))",
-		h1.S, inplace.S, r.S, SLen(s).S, h.S, SArr(s).S, SOff(s).S, h.S, h1.S)
-	base := add(off, SLen(s))
+	resN := c.name("app", res)
+	// prefix copy when a new array is allocated: r is fresh, so its cells in
+	// the current heap are unobservable garbage; we pick the garbage to be the
+	// copied prefix (same device as zero-initialisation in MakeSlice).
+	c.emit("(assert (=> (and %s (not %s)) (forall ((j Int)) (! (=> (and (<= 0 j) (< j %s)) (= (select %s (selem %s j)) (select %s (selem %s j)))) :pattern ((select %s (selem %s j)))))))",
+		st.pc.S, inplace.S, SLen(s).S, h.S, resN.S, h.S, s.S, h.S, resN.S)
 	if isConst {
-		cur := h1
+		cur := h
 		for j := int64(0); j < constN; j++ {
-			ev := Select(h, Idx(SArr(t), add(SOff(t), IntLit(j))))
-			cur = Store(cur, Idx(arr, add(base, IntLit(j))), ev)
+			ev := Select(h, Elem(t, IntLit(j)))
+			cur = Store(cur, Elem(resN, add(SLen(s), IntLit(j))), ev)
 		}
 		c.setHeap(st, hn, cur)
 	} else {
 		h2 := c.fresh(hn, h.Sort)
-		c.emit("(assert (forall ((a Ref)) (! (= (select %s a) (ite (and ((_ is ridx) a) (= (rarr a) %s) (<= %s (riidx a)) (< (riidx a) (+ %s %s))) (select %s (ridx %s (+ %s (- (riidx a) %s)))) (select %s a))) :pattern ((select %s a)))))",
-			h2.S, arr.S, base.S, base.S, n.S, h.S, SArr(t).S, SOff(t).S, base.S, h1.S, h2.S)
+		c.emit("(assert (forall ((a Ref)) (! (= (select %s a) (ite (and ((_ is ridx) a) (= (rarr a) %s) (<= %s (riidx a)) (< (riidx a) (+ %s %s))) (select %s (selem %s (- (riidx a) %s))) (select %s a))) :pattern ((select %s a)))))",
+			h2.S, arr.S, add(off, SLen(s)).S, add(off, SLen(s)).S, n.S, h.S, t.S, add(off, SLen(s)).S, h.S, h2.S)
+		c.emit("(assert (forall ((j Int)) (! (=> (and (<= 0 j) (< j %s)) (= (select %s (selem %s (+ %s j))) (select %s (selem %s j)))) :pattern ((select %s (selem %s j))))))",
+			n.S, h2.S, resN.S, SLen(s).S, h.S, t.S, h.S, t.S)
 		c.setHeap(st, hn, h2)
 	}
-	return c.name("app", res)
+	return resN
 }
 
 // noteCall records the call in the ghost call trace (see trace.go).
